@@ -426,6 +426,7 @@ pub fn replay_value(prop: &str, lane: &str, scenario: &Value, verbose: bool) -> 
         "N" => lanes::replay_lane_n(scenario, verbose),
         "C" => crate::lane_c::replay(scenario, verbose),
         "T" => crate::lane_t::replay(prop, scenario, verbose),
+        "M" => crate::miri::replay(prop, scenario),
         _ => Err(format!("unknown lane {}", lane)),
     }
 }
@@ -665,6 +666,38 @@ pub fn cmd_check(prop: &str, tier: &str, seed: u64) -> i32 {
             }
         }
     }
+    // ---- lane M (Miri's seeded preemptive scheduler) for the thread/table properties
+    let mut miri_ev = json!({"used": false});
+    if matches!(prop, "C15" | "C16" | "C17") && exit == 0 {
+        let mo = crate::miri::miri_slice(prop, tier, seed);
+        miri_ev = json!({"used": mo.executions > 0, "executions": mo.executions, "wall_s": mo.wall_s,
+                         "flags": crate::miri::MIRI_FLAGS, "note": mo.note,
+                         "what": "the thread / table workloads of /verif/miri interpreted by Miri: one (Miri seed, workload seed) pair is one repeatable execution with preemption inside calls; data races, out-of-bounds and use-after-free are reported"});
+        if let Some((wseed, mseed, kind, excerpt)) = mo.failure {
+            let v = crate::miri::violation(prop, &kind, &excerpt);
+            let sig = v.signature();
+            if let Some(i) = kf.matches(prop, "M", &sig) {
+                let f = &kf.findings[i];
+                println!("KNOWN-FINDING: property={} {} [signature {}]", prop, f.what, f.signature);
+            } else {
+                let doc = json!({"run": 0, "seed": seed, "lane": "M", "violation": lanes::violation_json(&v),
+                                 "scenario": crate::miri::scenario(prop, wseed, mseed, 64)});
+                match write_replay(prop, &doc, None, 0) {
+                    Ok(path) => {
+                        println!("violation: {}", v.detail);
+                        println!("VIOLATION property={} replay={}", prop, path);
+                        replay_path = path;
+                        violations_reported += 1;
+                        exit = 1;
+                    }
+                    Err(e) => {
+                        eprintln!("harness error: {}", e);
+                        exit = 2;
+                    }
+                }
+            }
+        }
+    }
     if agg.executed > 0 && agg.rejected * 2 > agg.executed {
         eprintln!(
             "harness error: {} of {} generated scenarios were unusable (first: {:?})",
@@ -731,6 +764,7 @@ pub fn cmd_check(prop: &str, tier: &str, seed: u64) -> i32 {
             "generated_scenarios_unusable": agg.rejected,
             "determinism_selfcheck": {"runs": dn, "layouts": [1, workers.max(2)], "mismatches": det_mismatch},
             "known_findings_hit": known,
+            "miri_lane": miri_ev,
             "violation_signatures": agg.violation_sigs,
             "replay": replay_path,
             "components": components_for(prop),
